@@ -7,6 +7,7 @@
 package rt
 
 import (
+	crand "crypto/rand"
 	"encoding/base64"
 	"encoding/json"
 	"fmt"
@@ -15,7 +16,10 @@ import (
 	"strconv"
 	"strings"
 	"sync"
+	"sync/atomic"
 	"time"
+
+	"github.com/google/uuid"
 )
 
 type Case struct {
@@ -181,7 +185,21 @@ func RaceMonitor(on bool)           {}
 func AllocLimit(n int) { allocLimit = uint64(n) }
 
 var allocLimit uint64
-func UUIDCalls() int                { return -1 }
+// UUIDCalls: how many UUIDs the process has drawn so far (the native twin counts reads of the uuid package's
+// random source; the executor counts calls of its uuid.NewRandom model).
+func UUIDCalls() int { return int(atomic.LoadInt64(&uuidReads)) }
+
+var uuidReads int64
+
+type countingRand struct{}
+
+func (countingRand) Read(b []byte) (int, error) {
+	atomic.AddInt64(&uuidReads, 1)
+	return crand.Read(b)
+}
+
+func init() { uuid.SetRand(countingRand{}) }
+
 func Note(s string)                 {}
 
 // Setenv sets a variable of the process environment (the symbolic environment is empty otherwise).
